@@ -14,6 +14,7 @@ import EaselModel.Stats.WeibullReal
 import EaselModel.Stats.WeiBinnedReal
 import EaselModel.Stats.GevReal
 import EaselModel.Stats.SxpBinnedReal
+import EaselModel.Stats.GammaReal
 import EaselModel.Stats.TevdReal
 import EaselModel.Stats.ExpBinnedReal
 import EaselModel.Stats.HistExpectReal
@@ -769,5 +770,43 @@ theorem sxp_binned_objective_is_neg_loglik (h : Hist ℝ) (bins : List (Int × N
 
 example (h : Hist ℝ) : ∀ ic ∈ [((3 : Int), (0 : Nat))], ic.2 ≠ 0 → sxpBinProb h 0 (Real.exp 0) (Real.exp 0) ic.1 ≠ 0 := by
   intro ic hic h0; simp at hic; subst hic; exact absurd rfl h0
+
+/-! ## round 6: the gamma fit in the shape `τ` -/
+
+/-- **Gamma: the likelihood equation in `τ`** (true Γ = Mathlib's `Real.Gamma`, `ψ = Γ'/Γ`): the profile log-likelihood `τ ↦ logL(λ = τ/x̄, τ)` per
+    sample has derivative `log τ - log x̄ - ψ(τ) + mean log(x-μ)`, and for a fixed rate `λ` the derivative in `τ` is `log λ - ψ(τ) + mean log(x-μ)`. -/
+theorem gamma_shape_likelihood_equation (xbar logxbar lam tau : ℝ) (hx : 0 < xbar) (ht : 0 < tau) :
+    HasDerivAt (fun t => llGam1 xbar logxbar (Real.log (Real.Gamma t)) (t / xbar) t) (Real.log tau - Real.log xbar - digammaR tau + logxbar) tau ∧
+    HasDerivAt (fun t => llGam1 xbar logxbar (Real.log (Real.Gamma t)) lam t) (Real.log lam - digammaR tau + logxbar) tau :=
+  ⟨gamma_profile_hasDerivAt xbar logxbar tau hx ht, gamma_loglik_hasDerivAt_tau xbar logxbar lam tau ht⟩
+
+example : (0 : ℝ) < 2 ∧ (0 : ℝ) < 1 := by norm_num
+
+/-- **`gam_fitting_engine`'s iteration stops moving exactly at a root of its likelihood equation**: the update the model computes,
+    `τ' = 1/(1/τ + g/d)` with `g = mean log(x-μ) - log x̄ + log τ - Ψ(τ)` and `d = τ - τ²Ψ'(τ) ≠ 0` (`Ψ`, `Ψ'` = whatever `esl_stats_Psi` /
+    `esl_stats_Trigamma` return), satisfies `τ' = τ ↔ g = 0`. With `Ψ = ψ` that is `gamma_shape_likelihood_equation`'s derivative `= 0`;
+    that the code's series equals `ψ` is NOT proved (`_partial`). -/
+theorem gamma_engine_fixed_point_is_stationary_partial (xbar logxbar tau psi tg : ℝ) (hd : tau - tau * tau * tg ≠ 0) :
+    (Num.one : ℝ) / (Num.one / tau + (logxbar - Num.log xbar + Num.log tau - psi) / (tau - tau * tau * tg)) = tau ↔
+      logxbar - Real.log xbar + Real.log tau - psi = 0 := by
+  rw [gamma_update_is_newton]; exact gamma_update_fixed_point tau _ _ hd
+
+example : (2 : ℝ) - 2 * 2 * 1 ≠ 0 := by norm_num
+
+/-- **`gev_func` on censored data** (`esl_gev_FitCensored`: `z` values censored at `φ`; ℝ, samples and `φ` in the main branch): the complete-data
+    negative log-likelihood minus `z·log F(φ)` with `log F(φ) = -(1 + αλ(φ-μ))^(-1/α)`. -/
+theorem gev_censored_objective_is_neg_loglik (xs : Array ℝ) (z : Int) (phi mu w a : ℝ) (h : ∀ x ∈ xs.toList, GevMain x mu w a)
+    (hphi : GevMain phi mu w a) :
+    gevFunc xs (some (z, phi)) #[mu, w, a] = gevNll xs.toList mu w a - (z : ℝ) * -Real.exp (-Real.log (gevU phi mu w a) / a) :=
+  gevFunc_censored_eq xs z phi mu w a h hphi
+
+/-- **Stretched exponential: the likelihood equation in `τ`** (true Γ = Mathlib's `Real.Gamma`, `ψ = Γ'/Γ`, any data, `τ > 0`): the derivative in `τ`
+    of `n(log λ + log τ - logΓ(1/τ)) - Σ (λ(xᵢ-μ))^τ` is `n(1/τ + ψ(1/τ)/τ²) - Σ log(λ(xᵢ-μ))·(λ(xᵢ-μ))^τ`. (The code's `esl_stats_LogGamma` in place
+    of `logΓ` is what `sxp_objective_is_neg_loglik` is about; that it approximates `logΓ` is not proved.) -/
+theorem sxp_shape_likelihood_equation (n : ℝ) (ls : List ℝ) (w tau : ℝ) (ht : 0 < tau) :
+    HasDerivAt (fun t => llSxp (Real.log (Real.Gamma (1 / t))) n ls w t) (llSxpDtau n ls w tau) tau :=
+  llSxp_hasDerivAt_tau n ls w tau ht
+
+example : (0 : ℝ) < 1 := by norm_num
 
 end EaselModel.Props.C11
